@@ -50,9 +50,48 @@ func appendsTo(fn *ssa.Function, field string) []ssa.CallInstruction {
 	for _, ci := range eng.Calls(fn, false, func(n string, _ ssa.CallInstruction) bool { return n == "builtin:append" }) {
 		if fr, ok := eng.LoadOfField(ci.Common().Args[0]); ok && fr.Field == field {
 			out = append(out, ci)
+			continue
+		}
+		// accumulation into a local that is assigned to the field afterwards
+		if v := ci.Value(); v != nil && flowsToFieldStore(v, field) {
+			out = append(out, ci)
 		}
 	}
 	return out
+}
+
+// flowsToFieldStore reports whether v reaches, through phis, further appends and
+// re-slicing, a store into a struct field of that name.
+func flowsToFieldStore(v ssa.Value, field string) bool {
+	seen := map[ssa.Value]bool{}
+	work := []ssa.Value{v}
+	for len(work) > 0 {
+		x := work[len(work)-1]
+		work = work[:len(work)-1]
+		if seen[x] || x.Referrers() == nil {
+			continue
+		}
+		seen[x] = true
+		for _, r := range *x.Referrers() {
+			switch u := r.(type) {
+			case *ssa.Phi:
+				work = append(work, u)
+			case *ssa.Slice:
+				work = append(work, u)
+			case *ssa.Call:
+				if b, ok := u.Call.Value.(*ssa.Builtin); ok && b.Name() == "append" && len(u.Call.Args) > 0 && u.Call.Args[0] == x {
+					work = append(work, u)
+				}
+			case *ssa.Store:
+				if u.Val == x {
+					if fr, ok := eng.AsField(u.Addr); ok && fr.Field == field {
+						return true
+					}
+				}
+			}
+		}
+	}
+	return false
 }
 
 func sortsIn(fn *ssa.Function) []string {
@@ -108,10 +147,16 @@ func ruleDeclaredOrder(c *eng.Ctx) {
 	} else {
 		decl := p.Func("pptx.(*Reader).declaredSlideFiles")
 		var dcall *ssa.Call
+		// sel: the function that chooses between the declared list and the fallback; parseSlides itself or a
+		// helper of it (orderedSlideFiles) whose result parseSlides iterates
+		sel := fn
 		if decl != nil {
-			for _, ci := range eng.Calls(fn, false, func(string, ssa.CallInstruction) bool { return true }) {
-				if call, ok := ci.(*ssa.Call); ok && call.Call.StaticCallee() == decl {
-					dcall = call
+			for _, h := range eng.Cluster(fn, 2) {
+				for _, ci := range eng.Calls(h, false, func(string, ssa.CallInstruction) bool { return true }) {
+					if call, ok := ci.(*ssa.Call); ok && call.Call.StaticCallee() == decl && dcall == nil {
+						dcall = call
+						sel = h
+					}
 				}
 			}
 		}
@@ -124,7 +169,7 @@ func ruleDeclaredOrder(c *eng.Ctx) {
 			checkEdge := func(pred *ssa.BasicBlock) {
 				usesDeclared = true
 				// conditions between the call and the point where the declared list is chosen
-				for _, b := range fn.Blocks {
+				for _, b := range sel.Blocks {
 					if len(b.Instrs) == 0 || !dcall.Block().Dominates(b) || !(b.Dominates(pred)) || b == pred && false {
 						continue
 					}
@@ -152,8 +197,13 @@ func ruleDeclaredOrder(c *eng.Ctx) {
 					}
 				}
 			}
-			eng.Instrs(fn, false, func(in ssa.Instruction) {
+			eng.Instrs(sel, false, func(in ssa.Instruction) {
 				switch x := in.(type) {
+				case *ssa.Return:
+					// helper form: `return declared` under the non-empty test
+					if sel != fn && len(x.Results) > 0 && x.Results[0] == ssa.Value(dcall) {
+						checkEdge(x.Block())
+					}
 				case *ssa.Phi:
 					for i, e := range x.Edges {
 						if e == ssa.Value(dcall) {
